@@ -237,7 +237,8 @@ def _run_fs_batch(args):
             adivs = V.collect_divergences(sess, os.path.join(bdir, "trace"), os.path.join(bdir, "tlc"))
             raw = open(path).read().splitlines()
             for d in adivs:
-                ctx = {"last_op": V.last_call_before(raw, d.get("line", 1)), "faulted": mode == "fault"}
+                lo, lr = V.last_call_before(raw, d.get("line", 1), with_res=True)
+                ctx = {"last_op": lo, "last_res_ok": lr, "faulted": mode == "fault"}
                 d["props"] = sorted(V.classify(d, ctx) | ({"C04"} if mode == "crash" else set())
                                     | ({"C13"} if mode == "fault" else set()))
             divs += adivs
